@@ -217,14 +217,14 @@ static std::string step(const std::string& line) {
   return "bad-op";
 }
 
-// emit_args_assignment can fail to terminate (open finding K8): every op runs under a 5 s alarm; the process then answers TIMEOUT on
+// emit_args_assignment can fail to terminate (open finding K8): every op runs under a 5 s CPU-time alarm; the process then answers TIMEOUT on
 // stderr and exits with 98 (the check isolates the line and reports it)
-static void on_alarm(int) { const char m[] = "TIMEOUT emit_args_assignment did not return within 5 s\n"; (void)!write(2, m, sizeof(m) - 1); _exit(98); }
+static void on_alarm(int) { const char m[] = "TIMEOUT emit_args_assignment did not return within 5 s of CPU time\n"; (void)!write(2, m, sizeof(m) - 1); _exit(98); }
 
 static std::string guarded_step(const std::string& line) {
-  alarm(5);
+  vh::cpu_alarm(5, on_alarm);
   std::string r = step(line);
-  alarm(0);
+  vh::cpu_alarm(0, on_alarm);
   return r;
 }
 
